@@ -11,15 +11,16 @@ Arguments N.eqb : simpl never.
 Definition cand_wf (len off : nat) (nd : node) : Prop := n_begin nd = off /\ (off < n_end nd <= len)%nat.
 
 (* ---------- MeCab ---------- *)
-Lemma len_loop_wf len off ll oovs : (off < len)%nat -> forall is, (forall i, In i is -> (1 <= i)%nat) ->
-  forall nd, In nd (len_loop is len off ll oovs) -> cand_wf len off nd.
+Lemma len_loop_wf len off ll oovs n : (off < len)%nat -> forall fuel i, (1 <= i)%nat ->
+  forall nd, In nd (len_loop fuel i n len off ll oovs) -> cand_wf len off nd.
 Proof.
-  intros Hoff. induction is as [|i t IH]; intros Hi nd H; [contradiction|].
-  cbn [len_loop] in H. destruct (cmp_eval OF.mecab_break_cmp (char_distance len off i) ll); [contradiction|].
+  intros Hoff. induction fuel as [|f IH]; intros i Hi nd H; [contradiction|].
+  cbn [len_loop] in H. destruct (loop_done i n); [contradiction|].
+  destruct (cmp_eval OF.mecab_break_cmp (char_distance len off i) ll || _); [contradiction|].
   apply in_app_iff in H. destruct H as [H|H].
-  - apply in_map_iff in H. destruct H as [o [<- _]]. specialize (Hi i (or_introl eq_refl)).
+  - apply in_map_iff in H. destruct H as [o [<- _]].
     unfold cand_wf, oov_node, char_distance. cbn [n_begin n_end]. lia.
-  - apply IH; [|exact H]. intros j Hj. apply Hi. right. exact Hj.
+  - apply (IH (S i)); [lia|exact H].
 Qed.
 
 Lemma mecab_class_wf m len off char_len other ctype nd :
@@ -33,8 +34,7 @@ Proof.
   intros H. apply in_app_iff in H. destruct H as [H|H].
   - destruct (ci_group ci); [|contradiction]. apply in_map_iff in H. destruct H as [o [<- _]].
     unfold cand_wf, oov_node. cbn [n_begin n_end]. lia.
-  - eapply (len_loop_wf len off); [exact Hoff| |exact H].
-    intros i Hi. unfold len_range in Hi. apply in_seq in Hi. lia.
+  - eapply (len_loop_wf len off); [exact Hoff| |exact H]. lia.
 Qed.
 
 Lemma mecab_provide_wf m cs off other ns :
